@@ -108,11 +108,17 @@ impl BigNumber {
     }
 
     pub fn from_dec(dec: &str) -> ClResult<BigNumber> {
+        if !super::is_numeral(dec, 10) {
+            return Err(err_msg!("Invalid decimal number"));
+        }
         let bn = BigNum::from_dec_str(dec)?;
         Ok(BigNumber { openssl_bn: bn })
     }
 
     pub fn from_hex(hex: &str) -> ClResult<BigNumber> {
+        if !super::is_numeral(hex, 16) {
+            return Err(err_msg!("Invalid hexadecimal number"));
+        }
         let bn = BigNum::from_hex_str(hex)?;
         Ok(BigNumber { openssl_bn: bn })
     }
